@@ -94,13 +94,14 @@ Section Rules.
   Qed.
 
   Lemma stop_no_match ps o k a p e pre post : opts_ok ps o ->
-    (k = TkBraceOpen \/ k = TkMacro \/ (is_mk k = true /\ f_in_math (ps_f ps) = false)) ->
+    (k = TkBraceOpen \/ k = TkMacro \/ k = TkComment \/ (is_mk k = true /\ f_in_math (ps_f ps) = false)) ->
     stop_matches (g_stop o) (mk k a p e pre post) = false.
   Proof.
     intros (_ & _ & _ & ST) K.
     destruct (g_stop o) as [|cc|k' cc|nm|? ? ?]; try reflexivity; try contradiction.
-    - cbn. destruct K as [->|[->|[K _]]]; try reflexivity. destruct k; try discriminate; reflexivity.
-    - destruct ST as [K' M]. cbn. destruct K as [->|[->|[K M']]].
+    - cbn. destruct K as [->|[->|[->|[K _]]]]; try reflexivity. destruct k; try discriminate; reflexivity.
+    - destruct ST as [K' M]. cbn. destruct K as [->|[->|[->|[K M']]]].
+      + destruct k'; try discriminate; reflexivity.
       + destruct k'; try discriminate; reflexivity.
       + destruct k'; try discriminate; reflexivity.
       + congruence.
@@ -130,7 +131,7 @@ Section Rules.
   Proof.
     intros OK GD M T G H. pose proof OK as (NL & _ & CH & _). rewrite run_collect. unfold collect_step.
     rewrite next_tok_strict, T, (stop_no_match ps o _ _ _ _ _ _ OK)
-      by (right; right; split; [destruct k; reflexivity | exact M]).
+      by (right; right; right; split; [destruct k; reflexivity | exact M]).
     assert (TK : tk (mk (m_tok k) (m_open k) (pos + length ws) (pos + length ws + length (m_open k)) ws [])
                  = m_tok k) by reflexivity.
     assert (BO : by_open_has ps (m_open k) = true).
@@ -153,6 +154,20 @@ Section Rules.
     cbn [mk tk]. rewrite (c_pre_result_nl ps o st _ _ pos _ ws post NL). cbn [fst snd].
     unfold c_dispatch. cbn [mk tk targ tpos tend tpost]. rewrite SP, CH. unfold c_tok0. cbn [mk tk targ tpos tend tpost].
     rewrite G. cbn [parse_content]. unfold c_push_check. rewrite NL. cbn [nl_stop_met]. exact H.
+  Qed.
+
+  Lemma rule_comment n ps o st pos ws text pe post r :
+    opts_ok ps o ->
+    impl_peek ps s pos = TokOk (mk TkComment text (pos + length ws) pe ws post) ->
+    R n (TCollect ps o (push_node (pre_flush ps st ws pos)
+                                  (Some (NComment (pos + length ws) pe (ps_mode ps) text post))) pe) = r ->
+    R (S n) (TCollect ps o st pos) = r.
+  Proof.
+    intros OK T H. pose proof OK as (NL & _ & CH & _). rewrite run_collect. unfold collect_step.
+    rewrite next_tok_strict, T, (stop_no_match ps o _ _ _ _ _ _ OK) by (right; right; left; reflexivity).
+    cbn [mk tk]. rewrite (c_pre_result_nl ps o st _ _ pos _ ws post NL). cbn [fst snd].
+    unfold c_dispatch. cbn [mk tk targ tpos tend tpost]. unfold c_push_check. rewrite NL. cbn [nl_stop_met].
+    exact H.
   Qed.
 
   (** ** the general-nodes parser *)
